@@ -116,6 +116,7 @@ class SymRandom(random.Random):
         self.seeds = 0
         self.uniforms = []
         self.samples = []
+        self.on_draw = None
 
     def sample(self, population, k, *, counts=None):
         pop = list(population)
@@ -125,6 +126,8 @@ class SymRandom(random.Random):
             c = self.g.choice(f"{self.tag}_perm{self.n}_{j}", len(pop))
             out.append(pop.pop(c))
         self.samples.append(list(out))
+        if self.on_draw:
+            self.on_draw("sample", list(out))
         return out
 
     def shuffle(self, x):
@@ -138,6 +141,8 @@ class SymRandom(random.Random):
         self.n += 1
         u = self.g.real(f"{self.tag}_u{self.n}", 0, 1, hi_strict=True)
         self.uniforms.append(u)
+        if self.on_draw:
+            self.on_draw("random", u)
         return u
 
     def gauss(self, mu=0.0, sigma=1.0):
